@@ -27,6 +27,7 @@ func main() {
 	noEvidence := flag.Bool("no-evidence", false, "do not write evidence/replay files (used for mutant self-tests)")
 	dump := flag.String("dump", "", "debug: dump SSA of functions whose name contains this string")
 	only := flag.String("only", "", "replay: print only obligations whose rule|construct contains this string")
+	verbose := flag.Bool("v", false, "print every obligation")
 	flag.Parse()
 
 	t0 := time.Now()
@@ -104,7 +105,7 @@ func main() {
 		}
 	}
 
-	prog, err := lint.Load(*repo, ov, *tier == "thorough" && ov == nil)
+	prog, err := lint.Load(*repo, ov, false)
 	if err != nil {
 		// a tree that does not load cannot be judged: fail every requested property loudly
 		for _, id := range ids {
@@ -144,13 +145,16 @@ func main() {
 		}()
 
 		extra := map[string]any{}
-		if *tier == "thorough" {
-			extra["tests_loaded"] = ov == nil
-		}
 
 		res := ctx.Finish(info, *tier, seed, findings, *verif, tp.Add(-prog.LoadDur), extra, !*noEvidence)
 
 		fmt.Printf("== %s: %d obligations, %d violations, %d known findings (%s tier)\n", id, len(ctx.Obls), res.Violations, res.Known, *tier)
+
+		if *verbose {
+			for _, o := range ctx.Obls {
+				fmt.Printf("    %-10s %-7s %s  [%s] %s\n", o.Status, o.Rule, o.Construct, o.Pos, o.Detail)
+			}
+		}
 
 		for _, l := range res.Lines {
 			if *only != "" && !strings.Contains(l, *only) {
